@@ -7,6 +7,7 @@ pub mod c03;
 pub mod c04;
 pub mod c05;
 pub mod c06;
+pub mod c07;
 pub mod c08;
 pub mod c09;
 pub mod c10;
@@ -29,6 +30,7 @@ pub fn clauses(property: &str) -> Vec<Clause> {
         "C04" => c04::clauses(),
         "C05" => c05::clauses(),
         "C06" => c06::clauses(),
+        "C07" => c07::clauses(),
         "C08" => c08::clauses(),
         "C09" => c09::clauses(),
         "C10" => c10::clauses(),
@@ -53,6 +55,7 @@ pub fn property_rule(property: &str) -> String {
         "C04" => "Sma / Ema / Alma: span bounds, constant reproduction, monotonicity, affine equivariance, EMA recurrence, ALMA kernel definition".into(),
         "C05" => "Rsi / MyRSI at Q and f64 vs gains and losses over the N most recent values; negation relation".into(),
         "C06" => "CTI / NET / CoG at Q and f64 vs Pearson r, Kendall tau, CoG formula on full windows; negation and rank-invariance relations".into(),
+        "C07" => "every reported value of the bounded indicators against its documented range on adversarial histories, f64 / f32 / Q, to 8 ulps of the bound".into(),
         "C08" => "readiness never reverts and every value is finite (enumerated singles, generated chains, long runs); warm-up table incl. gating leaves; no change when nothing is delivered".into(),
         "C09" => "impulse-response decay, attained BIBO bound, analytic bounds of the non-linear members, and two-stream fading memory, enumerated over every N".into(),
         "C10" => "three instances fed x, y and a x + b y: out_z = a out_x + b out_y exactly in Q; DC gain clauses enumerated over N".into(),
@@ -100,6 +103,10 @@ pub fn property_assumptions(property: &str) -> Vec<String> {
         "C06" => {
             v.push("the statement's 'CTI is +1 on any strictly increasing window' is asserted only through Pearson's r (= +1 exactly on arithmetic progressions): the check never demands more than the definition in the same sentence".into());
             v.push("partial windows: values are checked when reported (NET, CoG) or left open (CTI); f64 leg exempts windows whose spread (CTI) or sum (CoG) is below 1e-3 of their magnitude".into());
+        }
+        "C07" => {
+            v.push("'a few ulps of the bound' = 8 ulps (of the range width where the bound is 0); Min/Max bounds are taken over the values as the scalar sees them".into());
+            v.push("PFE / EFT are exercised with averaging moving averages Sma, Ema, Alma (1..6)".into());
         }
         "C08" => {
             v.push("release profile, f64: a NaN must be seen, not turned into a debug-assert panic (that is C15)".into());
